@@ -40,7 +40,7 @@ def _use_repo():
         sys.path.insert(0, src)
 
 
-def internal_min_opset() -> int:
+def internal_min_opset(const: str = "INTERNAL_MIN_OPSET") -> int:
     mod = parse("src/spox/_internal_op.py")
     val = None
     for st in mod.body:
@@ -49,7 +49,7 @@ def internal_min_opset() -> int:
             tgt, v = st.targets[0].id, st.value
         elif isinstance(st, ast.AnnAssign) and isinstance(st.target, ast.Name) and st.value is not None:
             tgt, v = st.target.id, st.value
-        if tgt == "INTERNAL_MIN_OPSET":
+        if tgt == const:
             try:
                 val = ast.literal_eval(v)
             except Exception:  # noqa: BLE001
@@ -60,7 +60,7 @@ def internal_min_opset() -> int:
             _use_repo()
             import spox._internal_op as io
 
-            val = int(io.INTERNAL_MIN_OPSET)
+            val = int(getattr(io, const))
         except Exception:  # noqa: BLE001
             val = 0
         if val < 0:
@@ -350,6 +350,11 @@ def collect() -> dict:
         imo = 0
         problems.append(f"INTERNAL_MIN_OPSET: {e}")
     try:
+        iom = internal_min_opset("IDENTITY_OPTIONAL_MIN_OPSET")
+    except Exception as e:  # noqa: BLE001
+        iom = 0
+        problems.append(f"IDENTITY_OPTIONAL_MIN_OPSET: {e}")
+    try:
         rows = shipped_table()
     except Exception as e:  # noqa: BLE001
         rows = []
@@ -379,7 +384,7 @@ def collect() -> dict:
             for t in sinces:
                 if t > s and form_compat(d, n, s, t):
                     compat.append((d, n, s, t))
-    return {"internal_min_opset": imo, "shipped": rows, "runs": runs, "ranges": ranges,
+    return {"internal_min_opset": imo, "identity_optional_min": iom, "shipped": rows, "runs": runs, "ranges": ranges,
             "names": names, "op_id": op_id, "compat": compat, "problems": problems,
             "adapt_state": state, "adapt_attr_writes": writes, "ast_hashes": hashes, "ast_changed": changed}
 
@@ -392,6 +397,8 @@ def generate() -> dict:
          "namespace Generated.OpsetFacts\n",
          "/-- `INTERNAL_MIN_OPSET` as assigned in src/spox/_internal_op.py -/",
          f"def internalMinOpset : Nat := {info['internal_min_opset']}\n",
+         "/-- `IDENTITY_OPTIONAL_MIN_OPSET` as assigned in src/spox/_internal_op.py (0 = not found) -/",
+         f"def identityOptionalMin : Nat := {info['identity_optional_min']}\n",
          "/-- (domain, identifier) of operator number i -/",
          "def opNames : List (String × String) := ["]
     chunk = [f"({lean_str(d)}, {lean_str(n)})" for (d, n) in info["names"]]
